@@ -16,10 +16,11 @@ OPAQUE = ("std::time::Instant", "std::time::Duration", "std::net::SocketAddr")
 
 
 class Run:
-    def __init__(self, prog, key, names=None, hooks=None, pre_hooks=None, local_models=None, setup=None):
+    def __init__(self, prog, key, names=None, hooks=None, pre_hooks=None, local_models=None, setup=None, track_content=False, bool_vars=True):
         self.prog = prog
         self.it = it = Interp(prog, M, INVARIANTS, trace=__import__("os").environ.get("E2_TRACE"))
-        it.bool_vars = True
+        it.bool_vars = bool_vars
+        it.track_content = track_content
         it.opaque = OPAQUE
         it.ret_hooks.update(hooks or {})
         it.pre_hooks.update(pre_hooks or {})
